@@ -185,6 +185,62 @@ def mutants(args):
     return 0 if not missed else 1
 
 
+def oracle_unit(args):
+    """Synthetic cases for the oracles themselves: each must be judged the way a reader of DESIGN.md expects."""
+    from .env import ensure_env
+    ensure_env("sim.selftest")
+    from . import batch, ops as OPS, oracle as ORA, world
+    from .codec import enc, fhex
+    batch.init_world()
+    np = world.np
+    bad = []
+
+    def expect(name, cond):
+        print("  %-70s %s" % (name, "ok" if cond else "WRONG"))
+        if not cond:
+            bad.append(name)
+
+    def hist(ops, run=None, faults=None):
+        r = world.infork(lambda: OPS.run_history({"ops": ops, "faults": faults or [], "run": run or {}}))
+        assert r[0] == "ok", r
+        return r[1]
+    new = {"op": "new", "c": 0, "obj": "S1", "cls": "verif.probe.ProbeValues", "kw": enc({}), "fam": "probe_values", "pi": 0}
+    call = {"op": "call", "c": 0, "obj": "S1", "buf": "B1", "pts": enc(np.linspace(0., 1., 30)), "cont": "nd", "t": fhex(1.0), "sol": "R1", "layout": "N", "fam": "probe_values"}
+
+    def dump(**kw):
+        d = {"op": "dump", "c": 0, "sol": "R1", "dev": "sim", "bufsize": 8192}
+        d.update(kw)
+        return d
+    h = hist([new, call, dump(), dump(dev="file"), dump(bufsize=1), dump(plan=enc({"short": 3}))])
+    for i, label in ((2, "sim device"), (3, "real file"), (4, "1-byte buffer"), (5, "short raw writes")):
+        _, res, content, names, exp, leaked, fired, writes = h["log"][i]["out"]
+        expect("fault-free dump through %s round-trips every special value" % label, res[0] == "returned" and ORA.check_csv(content, names, exp) is None and not leaked)
+    _, res, content, names, exp, leaked, fired, writes = h["log"][2]["out"]
+    expect("real file and sim device produce identical bytes", h["log"][2]["out"][2] == h["log"][3]["out"][2])
+    expect("check_csv rejects a truncated file", ORA.check_csv(content[:len(content) // 2], names, exp) is not None)
+    expect("check_csv rejects a renamed header", ORA.check_csv(content.replace(b"position", b"radius", 1), names, exp) is not None)
+    expect("check_csv rejects -0.0 written as 0.0", ORA.check_csv(content.replace(b"-0.0", b"0.0", 1), names, exp) is not None)
+    expect("check_csv rejects a 15-digit rendering of 0.30000000000000004", ORA.check_csv(content.replace(b"0.30000000000000004", b"0.3"), names, exp) is not None)
+    expect("check_csv rejects a dropped row", ORA.check_csv(b"\r\n".join(content.split(b"\r\n")[:5] + content.split(b"\r\n")[6:]), names, exp) is not None)
+    # stream faults: every plan either raises OSError or (short writes only) completes; nothing is left open
+    for plan in ({"fail_open": True, "errno": "EMFILE"}, {"fail_at_byte": 0}, {"fail_at_byte": 100}, {"fail_write_call": 1, "errno": "EIO"},
+                 {"fail_close": True, "errno": "EIO"}, {"short": 7, "fail_at_byte": 200}):
+        for bs in (1, 64, 8192):
+            h2 = hist([new, call, dump(plan=enc(plan), bufsize=bs), dump()])
+            _, res, content, names, exp, leaked, fired, writes = h2["log"][2]["out"]
+            expect("plan %s bufsize %d: dump raises OSError, no handle left open" % (plan, bs), res[0] == "raised" and res[2] and not leaked and fired)
+            _, res, content, names, exp, leaked, fired, writes = h2["log"][3]["out"]
+            expect("  ... and the next fault-free dump is complete (I8)", res[0] == "returned" and ORA.check_csv(content, names, exp) is None)
+    # H1 / H4 plumbing
+    a = ("ok", ("position", "v"), (("float64", (2,), np.array([1., 2.]).tobytes()), ("float64", (2,), np.array([3., 4.]).tobytes())), "[]", "exactpack.base.ExactSolution", 2)
+    b = ("ok", ("position", "v"), (("float64", (2,), np.array([1., 2.]).tobytes()), ("float64", (2,), np.array([3., np.nextafter(4., 5.)]).tobytes())), "[]", "exactpack.base.ExactSolution", 2)
+    expect("H1 is bitwise: one ulp is a mismatch", ORA.same_outcome(a, a) and not ORA.same_outcome(a, b))
+    expect("H1 compares exception types, not messages", ORA.same_outcome(("exc", "ValueError", "x"), ("exc", "ValueError", "y")) and not ORA.same_outcome(("exc", "ValueError", "x"), ("exc", "TypeError", "x")))
+    expect("H4 tolerance accepts 1e-14 relative and rejects 1e-6", ORA._close(1.0, 1.0 + 1e-14) and not ORA._close(1.0, 1.0 + 1e-6) and ORA._close(float("nan"), float("nan")) and not ORA._close(float("nan"), 1.0))
+    print("oracle unit: %s" % ("OK" if not bad else "FAILED: %r" % bad))
+    return 0 if not bad else 2
+
+
 def main(argv=None):
     ap = argparse.ArgumentParser(prog="sim.selftest")
     sub = ap.add_subparsers(dest="cmd", required=True)
@@ -197,8 +253,9 @@ def main(argv=None):
     m = sub.add_parser("mutants")
     m.add_argument("names", nargs="*")
     m.add_argument("--fast", action="store_true", help="restrict each run to the families named in the mutant's meta.json")
+    sub.add_parser("oracle")
     args = ap.parse_args(argv)
-    return {"determinism": determinism, "calibration": calibration, "fixed": fixed, "mutants": mutants}[args.cmd](args)
+    return {"determinism": determinism, "calibration": calibration, "fixed": fixed, "mutants": mutants, "oracle": oracle_unit}[args.cmd](args)
 
 
 if __name__ == "__main__":
